@@ -342,6 +342,12 @@ def main(pid, tier, seed, replay=None):
     res.violations = uniq
     finder_cache = {}
     for v in res.violations:
+        if v.get('ground') and (pid, v.get('finding_key')) in known_obl:
+            kf = known_obl[(pid, v['finding_key'])]
+            line_ = f'KNOWN-FINDING: property={pid} {kf["what"]} [key={kf["key"]}]'
+            if line_ not in res.known:
+                res.known.append(line_)
+            continue
         if not v.get('bounded') and not v.get('ground'):
             k = (pid, v.get('key'))
             if k in known_obl:
@@ -382,9 +388,17 @@ def main(pid, tier, seed, replay=None):
     # zero obligations guard
     if spec.get('contracts') and res.obligations == 0 and not res.errors:
         res.errors.append('zero obligations generated')
-    write_evidence(spec, res, time.time() - t0)
+    seen_k = set()
+    dedup = []
+    for l in res.known:
+        k_ = l.split('[key=')[1].split(';')[0].rstrip(']') if '[key=' in l else l
+        if k_ not in seen_k:
+            seen_k.add(k_)
+            dedup.append(l)
+    res.known = dedup
     for l in res.known:
         print(l)
+    write_evidence(spec, res, time.time() - t0)
     for e in res.errors:
         print('CHECKER-ERROR:', e)
     for u in res.undecided:
